@@ -135,18 +135,20 @@ class EntryLoop:
         yield
 
 
-def unit_hex_entry():
-    """base case of the hex step refinement: whatever kind of source is handed in, the code in front of the loop reaches the
+def unit_hex_entry(which="hex"):
+    """base case of the hex (and, with which="swtpm", the swtpm-log) step refinement: whatever kind of source is handed in, the code in front of the loop reaches the
     loop head without an exception or a yielded byte, in the start state (no nibble held), with an iterator over exactly the
     source's items, none consumed.  list / tuple / iterator / generator sources carry opaque items (so the statement holds for
     every content of that length, lengths 0-3); bytes and bytearray cannot carry opaque items and are evaluated for every text
     of at most 3 characters over the alphabet of the bounded stand-in (that part is a finite sample of contents)."""
-    H = mod("tpmstream.io.hex.marshal")
-    u = UnitResult("C15/HEX/entry")
-    u.functions = ["tpmstream.io.hex.marshal:parse_hex_string"]
+    H = mod("tpmstream.io.hex.marshal" if which == "hex" else "tpmstream.io.swtpm_log.marshal")
+    TAG = "HEX" if which == "hex" else "SWTPM"
+    start = {"high_nibble": b"", "low_nibble": b""} if which == "hex" else {"state": 0, "marker": b"", "value": b""}
+    u = UnitResult(f"C15/{TAG}/entry")
+    u.functions = [f"{H.__name__}:parse_hex_string"]
 
     def ob(name, ok, detail):
-        u.obligations.append({"name": f"C15/HEX/entry/{name}", "kind": "step", "site": "hex/marshal.py:parse_hex_string", "status": "proved" if ok else "refuted",
+        u.obligations.append({"name": f"C15/{TAG}/entry/{name}", "kind": "step", "site": f"{'hex' if which == 'hex' else 'swtpm_log'}/marshal.py:parse_hex_string", "status": "proved" if ok else "refuted",
                               "backend": "evaluation", "seconds": 0, "model": None, "detail": detail})
 
     def gen_of(items):
@@ -160,7 +162,7 @@ def unit_hex_entry():
     n = 0
     import ast, inspect, textwrap
     if not any(isinstance(x, ast.While) for x in ast.walk(ast.parse(textwrap.dedent(inspect.getsource(H.parse_hex_string))))):
-        u.unsupported.append("C15/HEX/entry: the scanner has no while loop; the step rule does not apply (the bounded stand-in decides)")
+        u.unsupported.append(f"C15/{TAG}/entry: the scanner has no while loop; the step rule does not apply (the bounded stand-in decides)")
         return u
     for kind, mk, contents in kinds:
         bad = None
@@ -181,20 +183,20 @@ def unit_hex_entry():
             except PyExc as e:
                 outcome = f"raised {type(e.exc).__name__} before the loop"
             except Unsupported as e:
-                u.unsupported.append(f"C15/HEX/entry/{kind}: {e}")
+                u.unsupported.append(f"C15/{TAG}/entry/{kind}: {e}")
                 return u
             loc = ctx.ghost.get("entry", {})
             if outcome != "loop-head" or ys:
                 # the code ended (or produced bytes) in front of the loop: that is judged against the whole-input spec where
                 # the content is concrete; with opaque items (or a scanner without that loop) the rule does not apply
-                if outcome == "loop-head" or isinstance(items, list):
-                    u.unsupported.append(f"C15/HEX/entry/{kind}: {outcome} with {len(ys)} bytes yielded in front of the loop; the step rule does not apply to this scanner")
+                if outcome == "loop-head" or isinstance(items, list) or which != "hex":
+                    u.unsupported.append(f"C15/{TAG}/entry/{kind}: {outcome} with {len(ys)} bytes yielded in front of the loop; the step rule does not apply to this scanner")
                     return u
                 err = None if outcome.startswith("returned") else outcome.split()[1]
                 if (ys, err) != hex_text_spec(items):
                     bad = f"text {items!r}: {outcome} after {ys} , expected {hex_text_spec(items)}"
-            elif loc.get("high_nibble") != b"" or loc.get("low_nibble") != b"":
-                bad = f"loop entered with high={loc.get('high_nibble')!r} low={loc.get('low_nibble')!r}"
+            elif any(type(loc.get(k)) is not type(v) or loc.get(k) != v for k, v in start.items()):
+                bad = f"loop entered with {({k: loc.get(k) for k in start})!r}, the start state is {start!r}"
             else:
                 buf = loc.get("buffer")
                 try:
@@ -711,6 +713,7 @@ def run(tier, seed, only=None):
     rep.replayer = replayer
     jobs = [(unit_hex, (list(range(i, min(i + 16, 256))),)) for i in range(0, 256, 16)]
     jobs.append((unit_hex_entry, ()))
+    jobs.append((unit_hex_entry, ("swtpm",)))
     jobs += [(unit_hex_bounded, (6 if tier == "thorough" else 5, p, 8)) for p in range(8)]
     jobs += [(unit_swtpm, ())]
     jobs += [(unit_auto, (i, min(i + 15, 255))) for i in range(0, 256, 16)]
